@@ -22,6 +22,7 @@ package resolver
 
 import (
 	"fmt"
+	"math"
 
 	"github.com/gontainer/gontainer-helpers/v3/exporter"
 	"github.com/gontainer/gontainer/internal/pkg/consts"
@@ -39,7 +40,7 @@ func (NonStringPrimitiveResolver) ResolveArg(i any) (e ArgExpr, _ error) {
 	// Method NonStringPrimitiveResolver{}.Supports checks whether the underlying type of `i` is primitive.
 	// exporter.MustExport never panics for primitive types, so there is no reason to handle an error.
 	return ArgExpr{
-		Code:              fmt.Sprintf(consts.TplDependencyValue, exporter.MustExport(i)),
+		Code:              fmt.Sprintf(consts.TplDependencyValue, exportPrimitive(i)),
 		Raw:               i,
 		DependsOnParams:   nil,
 		DependsOnServices: nil,
@@ -50,4 +51,23 @@ func (NonStringPrimitiveResolver) ResolveArg(i any) (e ArgExpr, _ error) {
 func (NonStringPrimitiveResolver) Supports(i any) bool {
 	_, ok := i.(string)
 	return !ok && types.IsPrimitive(i)
+}
+
+// exportPrimitive returns a GO expression that evaluates to the given primitive.
+// GO has neither literals nor constant expressions for non-finite floats (YAML: .inf, -.inf, .nan),
+// exporter.MustExport renders them as float64(+Inf), float64(-Inf), float64(NaN), what does not compile,
+// so they must be computed in the runtime.
+func exportPrimitive(i any) string {
+	if f, ok := i.(float64); ok {
+		const tpl = "func() float64 { zero := float64(0); return %s }()"
+		switch {
+		case math.IsNaN(f):
+			return fmt.Sprintf(tpl, "zero / zero")
+		case math.IsInf(f, 1):
+			return fmt.Sprintf(tpl, "1 / zero")
+		case math.IsInf(f, -1):
+			return fmt.Sprintf(tpl, "-1 / zero")
+		}
+	}
+	return exporter.MustExport(i)
 }
